@@ -252,6 +252,11 @@ def late_translations(ctx: Ctx):
         e = expand(ctx.repo, ci, member, stop=lambda m: m.name in ("_columns_dimension", "_rows_dimension", "_order_spec"))
         want = f"{dim}.element_ids.index({dim}.translate_element_id(self._order_spec.{spec_attr}))"
         ctx.check_expr("late-translation", f"{MA}::{cname}.{member}", e, want, "the opposing element reference is translated by the OPPOSING dimension before it is looked up among that dimension's element ids")
+        # must-pass-through, independent of the spelling: the argument of .index(...) is a translate_element_id(...) call
+        idx_calls = [n for n in ast.walk(e) if isinstance(n, ast.Call) and isinstance(n.func, ast.Attribute) and n.func.attr == "index"]
+        raw = [u(c.args[0]) for c in idx_calls if c.args and not (isinstance(c.args[0], ast.Call) and isinstance(c.args[0].func, ast.Attribute) and c.args[0].func.attr == "translate_element_id")]
+        if idx_calls:
+            ctx.ob("late-translation.pass-through", f"{MA}::{cname}.{member}", raw or "index(translate_element_id(...))", "the id looked up among the shimmed element ids went through translate_element_id", not raw, "element ids of an array dimension are aliases after shimming; an untranslated sub-variable id / element id matches nothing")
         ctx.count("late translations")
     ctx.require_min("late translations", 3)
 
